@@ -59,19 +59,21 @@ SPEC = dict(
         "loopback); without one they are skipped and reported as socks_send_skipped in the statistics",
         "the IBB block size is not settable through the public API (fixed 4096): the harness writes QXmppTransferManagerPrivate::"
         "ibbBlockSize (first member; layout guarded at start-up and by the <open/> the real sender emits)",
-        "QXmppTransferIncomingJob::writeData calls QIODevice::write once per block (no retry, return value ignored by the callers): "
-        "the model keeps device content (acc), hash input (fed) and counter apart; the theorems are about acc. With a device that "
-        "may take less than offered, success_implies_identical_bytes needs the true size announced (the hash covers offered bytes)",
         "`drop` = block lost while the sender is told it arrived (forged result); `lose` = block lost and nobody answers; `wsender` = "
-        "block delivered under another JID so that the answer goes elsewhere. After drop/swap/wsid/eclose/flip the receiving job "
-        "finishes with FileCorruptError (the in-band receiver never uses ProtocolError; the sender ends with ProtocolError when it "
-        "got an error response). After lose/wsender with nothing following, both jobs wait for ever: the library has no timer on "
-        "the in-band path and does not end jobs when the stream goes away -> recorded finding C19:lost-stanza-hangs-forever "
-        "(C19_defect_lost_block_never_reported); as soon as a <close/> arrives the receiver reports FileCorruptError",
-        "five recorded findings besides the hang: no hash -> altered block accepted; neither size nor hash -> truncated stream "
-        "accepted (nothing to check against, no receiver-side fix); hash but no size + short-writing device -> truncated file accepted "
-        "(fix: short write = FileAccessError); accept(filePath): file not flushed/closed when finished() is emitted, and write errors "
-        "inside the 16 kB QFile buffer unnoticed (fix: own the file, flush in checkData)",
+        "block delivered under another JID so that the answer goes elsewhere; `timeout` = the in-band inactivity timer (repo commit "
+        "afd7dc9, 120 s) of every job in TransferState fires (the harness finds the jobs' QTimer children and fires them; no hook in "
+        "the library). After drop/swap/wsid/eclose/flip the receiving job finishes with FileCorruptError (the sender with "
+        "ProtocolError when it got an error response); after lose/wsender both jobs end with ProtocolError once the interval has "
+        "elapsed (single_fault_ends_in_error). A job still in StartState (the <open/> or its answer got lost) has no timer and "
+        "waits for ever: not a block fault, outside the property's wording, reported to the coordinator",
+        "a failed or short QIODevice::write ends the receiving job with FileAccessError (repo commit 705738b); counter and hash only "
+        "see complete blocks; the model keeps device content (acc) and hash input (fed) apart and the theorems are about acc. "
+        "accept(filePath): the job owns, flushes and closes the file (repo commit e785bd1) - oracle only",
+        "two open recorded findings: no hash announced -> altered block accepted; neither size nor hash announced -> truncated "
+        "stream accepted. Both are 'nothing to verify against' (XEP-0096 makes the hash optional; an in-band <close/> is the only "
+        "end marker and qxmpp itself omits size for empty/unknown-length sources), so they are recorded, not fixed. Fixed in the "
+        "library and kept as passing corpus entries: 16-bit sequence wrap (49cbe2e), short write accepted (705738b), accept(path) "
+        "file incomplete / write error unnoticed (e785bd1), lost stanza hangs for ever (afd7dc9)",
         "QByteArray::fromBase64 skips invalid characters: a <data/> element with junk in its text is accepted as the bytes that remain "
         "(XEP-0047 asks for <bad-request/>); a block larger than the negotiated block size is accepted; both are covered by the "
         "correspondence and do not affect the integrity claim (final size/hash check)",
@@ -82,12 +84,13 @@ SPEC = dict(
                "bytes (with hash and size announced: against any channel incl. forgeries; without hash: by sequence numbers + size "
                "against any non-altering channel, up to 65536 blocks); the honest run succeeds for EVERY size and block size; a single "
                "lost/reordered/mislabelled/truncated block is never reported as success (up to 65536 blocks, any continuation) AND, "
-               "with the honest remainder delivered, the receiving job FINISHES with FileCorruptError (any size); an altered block "
-               "(hash announced) likewise; the sending job reports success only after reading its device to the end, reacts to the "
+               "with the honest remainder delivered and the inactivity interval elapsed, BOTH jobs are finished, nothing is pending and "
+               "the receiver's error is FileCorruptError or ProtocolError (single_fault_ends_in_error, FULL: any size); an altered "
+               "block (hash announced) likewise; the sending job reports success only after reading its device to the end, reacts to the "
                "peer's error with ProtocolError and ignores foreign/stale responses; SOCKS5 receive-path and sender-outcome theorems; "
-               "four defect theorems with witnesses (lost block never reported: no timeout; no hash => altered accepted; neither size "
-               "nor hash => truncated accepted; no size + short write accepted). Model tied to two real clients by exhaustive+random "
-               "correspondence; six recorded findings, four fix diffs.",
+               "two defect theorems with witnesses for the two open findings (no hash => altered accepted; neither size nor hash => "
+               "truncated accepted). Model tied to two real clients by exhaustive+random correspondence; five findings fixed in the "
+               "library (kept as passing corpus entries), two recorded.",
     level_note="Proved about the hand-written model; model-to-code tie is differential (exhaustive to depth 3/4 on a small file, all "
                "single faults at all positions for 6 sizes x 3-4 block sizes, sampled beyond). SOCKS5 sending side: outcome table over 6 "
                "driven scenarios (partial); accept(filePath): oracle only (partial).",
